@@ -11,6 +11,8 @@ package main
 
 import (
 	"fmt"
+	"os"
+	"strings"
 	"sync/atomic"
 	"time"
 
@@ -23,44 +25,7 @@ import (
 	"github.com/dappledger/AnnChain/gemmill/p2p"
 )
 
-// streamCases enumerates (writes, reads): every write sequence of length
-// 1..maxW over sizeSet, and every read-buffer sequence r1..rk (k<=maxR) such
-// that the buffers before rk could not yet hold all written bytes (a longer
-// sequence would never use its tail; when k==maxR the buffers are re-used
-// cyclically).
-func streamCases(maxW, maxR int) []kase {
-	var out []kase
-	var ws [][]int
-	var genW func(cur []int)
-	genW = func(cur []int) {
-		if len(cur) > 0 {
-			ws = append(ws, append([]int(nil), cur...))
-		}
-		if len(cur) == maxW {
-			return
-		}
-		for _, s := range sizeSet {
-			genW(append(cur, s))
-		}
-	}
-	genW(nil)
-	for _, w := range ws {
-		total := sum(w)
-		var genR func(cur []int, acc int)
-		genR = func(cur []int, acc int) {
-			for _, s := range sizeSet {
-				r := append(append([]int(nil), cur...), s)
-				if acc+s >= total || len(r) == maxR {
-					out = append(out, kase{Part: "stream", Writes: w, Reads: r})
-				} else {
-					genR(r, acc+s)
-				}
-			}
-		}
-		genR(nil, 0)
-	}
-	return out
-}
+var run0 = time.Now()
 
 func main() {
 	run := core.Start("C20", "model_checking", "XSTATE")
@@ -77,19 +42,32 @@ func main() {
 		run.Finish(nil, nil)
 	}
 
+	// debugging aid only: C20_SKIP=stream,mitm,chan,admit,mconn leaves parts out (evidence then says exhaustive=false)
+	skipped := os.Getenv("C20_SKIP")
+	skip := func(p string) bool { return strings.Contains(skipped, p) }
+	progress := func(what string) {
+		if os.Getenv("C20_VERBOSE") != "" {
+			fmt.Fprintf(os.Stderr, "[%6.1fs] %s\n", time.Since(run0).Seconds(), what)
+		}
+	}
 	t0 := time.Now()
 	// (a) streams
 	maxW, maxR := run.Pick(2, 3), run.Pick(3, 4)
-	sc := streamCases(maxW, maxR)
-	core.Par(len(sc), func(i int) {
-		c.runStream(sc[i])
-		if i%7919 == 0 {
-			c.samples.Add(sc[i])
-		}
-	})
+	st := streamTasks(maxW)
+	if skip("stream") {
+		st = nil
+	}
+	progress(fmt.Sprintf("stream tasks: %d", len(st)))
+	core.Par(len(st), func(i int) { c.runStreamTask(st[i], maxR) })
+	c.samples.Add(kase{Part: "stream", Writes: []int{2}, Reads: []int{1, 1}})
+	nStream := int(atomic.LoadInt64(&c.streamCases))
 	tStream := time.Since(t0).Seconds()
 	// (a) man in the middle, lying endpoints
+	progress("stream done")
 	mc := c.mitmCases_(run.Quick())
+	if skip("mitm") {
+		mc = nil
+	}
 	for _, sci := range []int{0, 1, 2} {
 		c.foreign(sci)
 	}
@@ -109,15 +87,23 @@ func main() {
 	c.samples.Add(ac[2])
 	tMitm := time.Since(t0).Seconds() - tStream
 
+	progress("mitm+auth done")
 	// (b) channels
 	depth := run.Pick(6, 8)
+	if skip("chan") {
+		depth = 0
+	}
 	t1 := time.Now()
 	cs := c.exploreChan(depth)
 	tChan := time.Since(t1).Seconds()
 
+	progress("chan done")
 	// (c) admission
 	t2 := time.Now()
 	adm := admitCases()
+	if skip("admit") {
+		adm = nil
+	}
 	core.Par(len(adm), func(i int) {
 		c.runAdmit(adm[i])
 		if i%211 == 0 {
@@ -126,13 +112,14 @@ func main() {
 	})
 	tAdmit := time.Since(t2).Seconds()
 
+	progress("admission done")
 	// (b') conformance subset on started MConnections
 	t3 := time.Now()
 	mres := c.runMConnSubset()
 	tMconn := time.Since(t3).Seconds()
 
 	cls := c.classes.Map()
-	states := int(cs.states) + len(sc) + len(mc) + len(ac) + len(adm)
+	states := int(cs.states) + nStream + len(mc) + len(ac) + len(adm)
 	run.Finish(core.Coverage{
 		"states":                        states,
 		"transitions":                   int(atomic.LoadInt64(&c.evals)),
@@ -144,13 +131,13 @@ func main() {
 			"(b) breadth-first over all histories of {send(ch,size) 2x8, pump(ch), poll(ch)=isSendPending only, deliver} up to the depth bound with deduplication on (queued sizes, message in transmission+offset, receiver fill, packets on the wire, dead), every transition followed by a drain that must deliver every accepted message; " +
 			"(c) every combination of phase x refuse-list x announced-key x auth_by_ca x validator x non_validator_node_auth x signature kind x self; " +
 			"distinct_nontrivial counts distinct (part, input class, outcome) classes observed",
-		"exhaustive": true,
+		"exhaustive": skipped == "",
 		"bounds": map[string]interface{}{
 			"max_writes": maxW, "max_reads": maxR, "sizes": sizeSet,
 			"mitm_units": "0..4", "chan_depth": depth, "chan_msg_sizes": msgSizes,
 			"chan_send_queue": chanSendQueueCap, "chan_recv_capacity": chanRecvMsgCap,
 		},
-		"stream_cases":                    len(sc),
+		"stream_cases":                    nStream,
 		"stream_cases_with_leftover_read": int(c.leftoverCases),
 		"stream_leftover_cases_failing":   int(c.leftoverFailing),
 		"mitm_cases":                      len(mc),
@@ -177,7 +164,7 @@ func main() {
 func (c *ctx) runCase(k kase) {
 	switch k.Part {
 	case "stream":
-		c.runStream(k)
+		c.replayStream(k)
 	case "mitm":
 		c.runMitm(k)
 	case "auth":
